@@ -622,6 +622,36 @@ class SymInt:
             raise Unsupported(">> by a symbolic amount")
         return SymInt(self.z >> o, (self.iv[0] >> o, self.iv[1] >> o))   # bvashr == floor shift
 
+    def _concretize_small(self, what):
+        """the few possible values of a narrowly bounded symbolic int, one path each"""
+        lo, hi = self.iv
+        if hi - lo > 64:
+            # the static interval is wide: the path condition may still pin the value into a small window
+            lo = max(lo, -1)
+            if Ctx.cur.fork(z3.Or(self.z < lo, self.z > lo + 64)):
+                raise Unsupported(what + " by a symbolic amount with a wide range")
+            hi = lo + 64
+        for v in range(lo, hi + 1):
+            if Ctx.cur.fork(self.z == v):
+                return v
+        raise Infeasible()
+
+    def __rrshift__(self, o):
+        if type(o) is not int:
+            raise Unsupported(">> of a non-int by a symbolic amount")
+        return o >> self._concretize_small(">>")
+
+    def __rlshift__(self, o):
+        if type(o) is not int:
+            raise Unsupported("<< of a non-int by a symbolic amount")
+        return o << self._concretize_small("<<")
+
+    def _unsupported_op(self, *a, **k):
+        raise Unsupported("arithmetic operator not modelled on symbolic ints")
+
+    __pow__ = __rpow__ = __truediv__ = __rtruediv__ = __rfloordiv__ = __rmod__ = __divmod__ = __rdivmod__ = _unsupported_op
+    __matmul__ = __rmatmul__ = __round__ = __float__ = _unsupported_op
+
     def __floordiv__(self, o):
         if type(o) is not int or o <= 0:
             raise Unsupported("// by a symbolic or non-positive value")
@@ -807,7 +837,15 @@ class SymStr:
     def __bool__(self): return bool(self.parts)
     def __hash__(self): raise Unsupported("hash(SymStr)")
     def __len__(self): raise Unsupported("C-level len(SymStr)")
-    def __iter__(self): raise Unsupported("iteration over the characters of symbolic text")
+    def __iter__(self):
+        """characters: concrete ones as they are, each numeral as one placeholder digit (usable for character-class tests only)"""
+        out = []
+        for p in self.parts:
+            if type(p) is str:
+                out.extend(p)
+            else:
+                out.append(DigitChar(p.v, True))
+        return iter(out)
     def __add__(self, o): return SymStr.mk(self.parts + SymStr.lift(o).parts)
     def __radd__(self, o): return SymStr.mk(SymStr.lift(o).parts + self.parts)
 
